@@ -39,3 +39,15 @@ func init() {
 		variant{Prop: "C16", Name: "feature-context-queries", Patch: "benign/C16-r10-1/patch.diff", Benign: true},
 	)
 }
+
+// R3.6: the statement printer's guard
+func init() {
+	af := "ast/ast.go"
+	addVariants(
+		variant{Prop: "C03", Name: "stmt-guard-forgets-member-object", File: af, Old: "\t\tcase *MemberExpression:\n\t\t\te = n.Object\n", New: "", Rule: "R3.6", Construct: "MemberExpression"},
+		variant{Prop: "C03", Name: "stmt-guard-follows-the-wrong-operand", File: af, Old: "\t\tcase *AssignmentExpression:\n\t\t\te = n.Left\n", New: "\t\tcase *AssignmentExpression:\n\t\t\te = n.Value\n", Rule: "R3.6", Construct: "AssignmentExpression"},
+		variant{Prop: "C03", Name: "stmt-guard-without-function-expression", File: af, Old: "\t\tcase *ObjectLiteral, *FunctionExpression:\n\t\t\treturn true\n", New: "\t\tcase *ObjectLiteral:\n\t\t\treturn true\n", Rule: "R3.6", Construct: "FunctionExpression"},
+		variant{Prop: "C03", Name: "stmt-guard-not-consulted", File: af, Old: "\tneedsParens := beginsLikeStatement(es.Expression)\n", New: "\tneedsParens := false && beginsLikeStatement(es.Expression)\n", Rule: "R3.5", Construct: "ExpressionStatement"},
+		variant{Prop: "C03", Name: "group-method-hands-the-inner-node-through", Patch: "seeded/C03-r9-3/patch.diff", Rule: "R3.6", Construct: "ParseGroupedExpression"},
+	)
+}
